@@ -36,12 +36,12 @@ JOBS = [
          functions=[FN], allow_no_body=["tinyjambu_clean"],
          grid=[{"label": "p%d_n%d" % (p, n), "defs": ["TJV_POSN=%d" % p, "TJV_LEN=%d" % n]}
                for p in (0, 1, 5, 15) for n in (0, 1, 10, 11, 12, 15, 16, 17, 27, 33, 48)],
-         unwind=50, cost=60, mem_share=0.3,
+         unwind=50, cost=60, mem_share=0.3, timeout=90,
          bounded="posn in {0,1,5,15} x inlen in {0,1,10,11,12,15,16,17,27,33,48}, input at every alignment 0..3, arbitrary L, R, buffered bytes and data (loops unwound)"),
     dict(COMMON, name="hash.oneshot.grid", files=["harness/h_hash.c", "stubs/hmon.c", "stubs/mem.c", HASH, CLEAN_SRC], defs=["WHICH=4", "TJV_ALIGN"],
          functions=["tinyjambu_hash"],
          grid=[{"label": "n%d" % n, "defs": ["TJV_LEN=%d" % n]} for n in (0, 1, 5, 15, 16, 17, 31, 32, 33, 50)],
-         unwind=60, cost=30, mem_share=0.3,
+         unwind=60, cost=30, mem_share=0.3, timeout=200,
          bounded="inlen in {0,1,5,15,16,17,31,32,33,50}, every alignment 0..3, all data (loops unwound)"),
     dict(COMMON, name="hash.oneshot.seq", files=["harness/h_hash_seq.c", "repo:src/tinyjambu-hash.c"], defs=["TJV_SEQ"],
          remove_bodies=["tinyjambu_hash_init", "tinyjambu_hash_reinit", "tinyjambu_hash_update", "tinyjambu_hash_finalize", "tinyjambu_hash_free"],
